@@ -250,9 +250,12 @@ def equivOn (atoms : List Atom) (p q : Policy) : Bool :=
 def impliesOn (atoms : List Atom) (p q : Policy) : Bool :=
   forallVals atoms (fun v => !holdsA v p || holdsA v q)
 
-/-- fewest true key atoms over all satisfying assignments -/
+/-- fewest signing keys over all satisfying assignments.  An assignment of the policy's atoms is
+given by the sub-list `ts` of atom occurrences it makes true (`valOf ts`); choosing one
+occurrence per true atom shows that the minimum of `nSigs ts` is the least number of distinct
+keys that have to sign. -/
 def minTrueKeys (p : Policy) : Option Nat :=
-  (((subsets (atomsOf p).eraseDups).filter (fun ts => holdsA (valOf ts) p)).map nSigs).min?
+  (((subsets (atomsOf p)).filter (fun ts => holdsA (valOf ts) p)).map nSigs).min?
 
 /-! ## Safety and malleability of a concrete policy (what `is_safe_nonmalleable` is about) -/
 
